@@ -34,6 +34,13 @@ def install_json_stub():
             if isinstance(x, SDoc):
                 import copy
                 return copy.deepcopy(x.doc) if B().mode == 'conc' else _copy_doc(x.doc)
+            from sx import text as T_
+            if isinstance(x, T_.SText):
+                first = x.parts[0]
+                if isinstance(first, str) and first.lstrip()[:1] not in ('{', '['):
+                    raise ValueError("Expecting value: line 1 column 1 (char 0)")      # what json.loads says for TSV text
+                from sx import core as C_
+                raise C_.Unsupported("json.loads of symbolic text")
             return json.loads(x, *a, **k)
 
         @staticmethod
